@@ -408,7 +408,7 @@ func (pb *prober) probeDestBoth(usedDest string) {
 // ---------------------------------------------------------------------------
 
 func runGroupCases(t *testing.T, r *rep.Reporter, env instrEnv) {
-	n := r.N(160, 5000)
+	n := r.N(160, 12000)
 	for i := 0; i < n; i++ {
 		idx := baseGroup + i
 		r.Run(idx, fmt.Sprintf("group-%d", i), func(c *rep.Case) {
